@@ -60,6 +60,22 @@ pub enum RecvRes {
     DropPanic(String),
 }
 
+thread_local! {
+    /// Operations applied to message #i through the SendGuard (DerefMut) after it was emplaced and
+    /// before it is sent. Set by the property, read by the send drivers.
+    pub static POST_OPS: std::cell::RefCell<Vec<Vec<(Vec<u16>, crate::glue::Op)>>> = std::cell::RefCell::new(Vec::new());
+}
+
+fn apply_post_ops<T: Shape + ?Sized>(i: usize, x: &mut T) {
+    POST_OPS.with(|p| {
+        if let Some(ops) = p.borrow().get(i) {
+            for (path, op) in ops {
+                let _ = x.mutate(path, op);
+            }
+        }
+    });
+}
+
 fn panic_msg(e: Box<dyn std::any::Any + Send>) -> String {
     if let Some(s) = e.downcast_ref::<&str>() {
         s.to_string()
@@ -100,10 +116,11 @@ pub fn send_blocking<T: Shape + ?Sized>(msgs: &[Value], routes: &[u8], max_msg_l
                 Ok(g) => g,
                 Err(e) => return SendRes::AllocErr(e.kind()),
             };
-            let guard = match guard.new_in_place(ValEmplacer::<T>::new(m, &route)) {
+            let mut guard = match guard.new_in_place(ValEmplacer::<T>::new(m, &route)) {
                 Ok(g) => g,
                 Err(e) => return SendRes::Emplace(e.into()),
             };
+            apply_post_ops::<T>(i, &mut *guard);
             match guard.send() {
                 Ok(()) => SendRes::Sent,
                 Err(e) => SendRes::IoErr(e.kind()),
@@ -211,10 +228,11 @@ pub fn async_send<T: Shape + ?Sized>(msgs: &[Value], routes: &[u8], max_msg_len:
                         Ok(g) => g,
                         Err(e) => return SendRes::AllocErr(e.kind()),
                     };
-                    let guard = match guard.new_in_place(ValEmplacer::<T>::new(m, &route)) {
+                    let mut guard = match guard.new_in_place(ValEmplacer::<T>::new(m, &route)) {
                         Ok(g) => g,
                         Err(e) => return SendRes::Emplace(e.into()),
                     };
+                    apply_post_ops::<T>(i, &mut *guard);
                     match guard.send().await {
                         Ok(()) => SendRes::Sent,
                         Err(e) => SendRes::IoErr(e.kind()),
@@ -365,10 +383,11 @@ pub fn async_joined<T: Shape + ?Sized>(
                         Ok(g) => g,
                         Err(e) => return SendRes::AllocErr(e.kind()),
                     };
-                    let guard = match guard.new_in_place(ValEmplacer::<T>::new(m, &route)) {
+                    let mut guard = match guard.new_in_place(ValEmplacer::<T>::new(m, &route)) {
                         Ok(g) => g,
                         Err(e) => return SendRes::Emplace(e.into()),
                     };
+                    apply_post_ops::<T>(i, &mut *guard);
                     match guard.send().await {
                         Ok(()) => SendRes::Sent,
                         Err(e) => SendRes::IoErr(e.kind()),
